@@ -239,7 +239,7 @@ def add_children_rules(chk, pid):
                 chk.ob("C19.R1" if pid == "C19" else "C11.R3", okc, CORE, host, "registered-child-is-a-copy:%s" % e.base[2],
                        "with dc=True every node registered under this parent - attached at once or kept for lazy creation - is a copy of the object passed in (templates can be shared between parents)",
                        where=e.where, expected="deepcopy(c) under dc", found=short(v, 120))
-    if pid == "C11":
+    if pid in ("C11", "C19"):
         dcs = [w for w in S.events if w.kind == "write" and w.field in ("name", "parent") and w.obj != SELF]
         ok = True
         for w in dcs:
@@ -461,6 +461,17 @@ def full_name_members(chk, pid):
         if is_root:
             ok = v[0] == "fld" and v[2] == "name"
     chk.ob("C19.R4", ok, CORE, "Node.full_name", "full-name-root", "a root's full name is its name", where=F.fn.where)
+    ok = False
+    for g, v in F.return_cases():
+        gg = sym.sat(g)
+        not_root = any((not p) and a[0] in ("cmp", "eq", "is") and mentions_field(a, "parent", SELF) for a, p in gg)
+        if not_root:
+            par = ("fld", SELF, "parent", 0)
+            via_parent = sym.contains(v, lambda n: n[0] == "prop" and len(n) == 3 and n[2] == "full_name" and canon(n[1]) == canon(par))
+            own = sym.contains(v, lambda n: n[0] == "fld" and len(n) == 4 and n[2] == "name" and canon(n[1]) == canon(SELF))
+            ok = via_parent and own
+    chk.ob("C19.R4", ok, CORE, "Node.full_name", "full-name-path", "below the root a node's full name is its parent's FULL name followed by its own name (the whole path, so that names are unique in the tree)",
+           where=F.fn.where, expected="parent.full_name > name")
     from .algo_equiv import check_equiv
 
     check_equiv(chk, "C19.R2", CORE, "Node", "members", MEMBERS_REF, "members-recursive",
